@@ -151,8 +151,50 @@ def product_history_case():
     return Case(name, body, goals, family="compose/product_external_parameter")
 
 
-def density_case(kind, boundary, grid):
-    name = "density/%s/%s%s" % ("grid" if grid else "random", kind, "/boundary" if boundary else "")
+def operand_reuse_case(op, ka="Parallelogram"):
+    """history: a constant domain A is first used as an operand of a combination with a t-dependent partner and is then
+    used again in a product with an interval over t: the product is still the product of two independent factors, so its
+    volume is vol(A) * |I| (exactly, not the sampled approximation) and A still has no free variable"""
+    name = "compose/operand_reuse/%s_with_Circle[t]_then_product/%s" % (op, ka)
+
+    def body(env):
+        L = env.L
+        a = SH.PRIMS[ka](env, tag="A")
+        b = SH.circle(env, tag="B", dep="t")
+        i = SH.interval(env, tag="I", var="t")
+        nv0 = set(a.dom.necessary_variables)
+        if op == "cut":
+            comb = a.dom - b.dom
+        elif op == "union":
+            comb = a.dom + b.dom
+        elif op == "intersection":
+            comb = a.dom & b.dom
+        elif op == "cut_boundary":
+            comb = (a.dom - b.dom).boundary
+        else:
+            raise ValueError(op)
+        nv_comb = set(comb.necessary_variables)
+        SH.assume_positive(env, a, [{}])
+        SH.assume_positive(env, i, [{}])
+        v = (a.dom * i.dom).volume()
+        return dict(v=v.reshape(-1), want=a.oset.volume({}, L) * i.oset.volume({}, L), nv0=nv0, nv1=set(a.dom.necessary_variables),
+                    nv_comb=nv_comb)
+
+    def goals(o, L, env):
+        yield "operand_has_no_free_variable_before_and_after", o["nv0"] == set() and o["nv1"] == set()
+        yield "combination_declares_the_partner_variable", o["nv_comb"] == {"t"}
+        yield "one_value", len(o["v"]) == 1
+        if len(o["v"]) == 1:
+            yield "volume_eq", L.eq(o["v"][0], o["want"])
+
+    return Case(name, body, goals, family="compose/operand_reuse", params=dict(op=op, a=ka))
+
+
+def density_case(kind, boundary, grid, user_volume=None):
+    """user_volume: 'translate' / 'rotate' -- the domain is wrapped and the WRAPPER gets a user-set volume (a symbolic (1,1)
+    tensor): the density then refers to that volume"""
+    name = "density/%s/%s%s%s" % ("grid" if grid else "random", kind, "/boundary" if boundary else "",
+                                  "/set_volume_on_%s" % user_volume if user_volume else "")
 
     def body(env):
         sh = SH.PRIMS[kind](env)
@@ -163,6 +205,13 @@ def density_case(kind, boundary, grid):
         env.assume(L.gt(dens, 0))
         dom = sh.dom.boundary if boundary else sh.dom
         vol = sh.bd_volume({}, L) if boundary else sh.oset.volume({}, L)
+        if user_volume:
+            w = (SH.translate if user_volume == "translate" else SH.rotate)(env, sh)
+            sv = env.tensor("sv", (1, 1))
+            vol = SH.elems(env, sv)[0]
+            env.assume(L.gt(vol, 0))
+            w.dom.set_volume(sv)
+            dom = w.dom
         env.assume(L.le(dens * vol, 4))  # bound: at most 4 points requested
         dd = d_t.item() if env.symbolic else float(d_t)
         pts = (dom.sample_grid if grid else dom.sample_random_uniform)(d=dd)
@@ -176,8 +225,8 @@ def density_case(kind, boundary, grid):
             # exactly ceil(d*vol):  n-1 < d*vol <= n
             yield "count_is_ceil", L.And(L.lt(n - 1, o["dv"]), L.le(o["dv"], n))
 
-    return Case(name, body, goals, family=name, params=dict(kind=kind, boundary=boundary, grid=grid), max_paths=40,
-                int_hi=8)
+    return Case(name, body, goals, family=name, params=dict(kind=kind, boundary=boundary, grid=grid, user_volume=user_volume),
+                max_paths=40, int_hi=8)
 
 
 def cases(tier):
@@ -206,10 +255,20 @@ def cases(tier):
         cs.append(comp_case("translate", a, a, k=2))
     cs.append(comp_case("set_volume_cut", "Circle", "Parallelogram"))
     cs.append(product_history_case())
+    for op in ("cut", "union", "intersection", "cut_boundary"):
+        cs.append(operand_reuse_case(op))
+    if tier == "thorough":
+        for op in ("cut", "intersection"):
+            cs.append(operand_reuse_case(op, "Circle"))
     for kind in ("Interval", "Circle", "Parallelogram") + (("Sphere",) if tier == "thorough" else ()):
         cs.append(density_case(kind, False, False))
         if kind != "Sphere":
             cs.append(density_case(kind, False, True))
     for kind in ("Circle", "Interval") + (("Parallelogram", "Triangle") if tier == "thorough" else ()):
         cs.append(density_case(kind, True, False))
+    for wrap in ("rotate", "translate"):
+        cs.append(density_case("Circle", False, False, user_volume=wrap))
+        if tier == "thorough":
+            cs.append(density_case("Parallelogram", False, False, user_volume=wrap))
+            cs.append(density_case("Circle", False, True, user_volume=wrap))
     return cs
